@@ -8,7 +8,7 @@ from ..env import BUILD, MachineryError
 from .. import tlc as T
 
 C05_INV = {"Numeric", "NoEmptyLevel", "NlExact", "SamplesGenuine", "RowsExact", "StatsExact", "StatsWithControls"}
-C06_INV = {"LevelBound", "ExitOnCriteria", "AllocationMet", "FixedShape"}
+C06_INV = {"LevelBound", "ExitOnCriteria", "AllocationMet", "FixedShape", "RateIsTheRegressedOrGivenOne"}
 
 
 def export_scripts(ctx, num, seed):
